@@ -230,7 +230,12 @@ class JinjaEvaluator(expr_base.Evaluator):
 
             # Evaluate the raw blocks.
             ctx = cls.contextualize(data)
-            output = cls._jinja_env.from_string(output).render(ctx)
+
+            try:
+                output = cls._jinja_env.from_string(output).render(ctx)
+            except Exception as e:
+                msg = "Unable to evaluate expression '%s'. %s: %s"
+                raise JinjaEvaluationException(msg % (output, e.__class__.__name__, str(e)))
 
         return output
 
